@@ -86,6 +86,9 @@ class AbstractEval:
         self.field_types = field_types or {}
         self.const_attrs = const_attrs or {}
         self.calls: List[App] = []
+        self.globals: Dict[str, Any] = {}  # free names -> model values
+        self.funcs: Dict[str, Callable] = {}  # modelled builtins (called with evaluated arguments)
+        self.cur: List[FuncInfo] = []  # inlining stack (module context for name resolution)
         self.depth = 0
         self.max_depth = max_depth
         self.type_of: Dict[str, str] = {}
@@ -121,6 +124,8 @@ class AbstractEval:
         if isinstance(e, ast.Name):
             if e.id in env:
                 return env[e.id]
+            if e.id in self.globals:
+                return self.globals[e.id]
             return Sym(e.id)
         if isinstance(e, ast.Attribute):
             base = self.ev(e.value, env)
@@ -134,12 +139,17 @@ class AbstractEval:
                     f = self.prog.lookup(bt, e.attr)
                     if f is not None and f.is_property and self.inline(f.qual):
                         return self.call_func(f, [base], {})
+                    ca = self.prog.lookup_attr(bt, e.attr)
+                    if ca is not None and ca.is_classvar and ca.value is not None:
+                        return self.ev(ca.value, {})
                     ft = self.prog.field_type(bt, e.attr)
                     if ft and ft in self.prog.classes:
                         self.type_of[p] = ft
                 if p in self.field_types:
                     self.type_of[p] = self.field_types[p]
                 return Sym(p)
+            if hasattr(base, "model_attr"):
+                return base.model_attr(e.attr)
             return getattr(base, e.attr) if hasattr(base, e.attr) else Sym(f"{base!r}.{e.attr}")
         if isinstance(e, ast.BoolOp):
             if isinstance(e.op, ast.And):
@@ -185,10 +195,35 @@ class AbstractEval:
         if isinstance(e, ast.Lambda):
             return App("lambda", (ast.unparse(e),))
         if isinstance(e, ast.Subscript):
-            return App("getitem", (self.ev(e.value, env), self.ev(e.slice, env)))
+            base, idx = self.ev(e.value, env), self.ev(e.slice, env)
+            if isinstance(base, (tuple, list, dict)) and not isinstance(idx, (Sym, App)):
+                return base[idx]  # IndexError / KeyError propagate to an enclosing abstract `try`
+            return App("getitem", (base, idx))
+        if isinstance(e, (ast.GeneratorExp, ast.ListComp)):
+            return self.comprehension(e, env)
         if isinstance(e, ast.BinOp):
             return App(type(e.op).__name__, (self.ev(e.left, env), self.ev(e.right, env)))
         raise AnalysisError(f"dtable: no abstract semantics for expression {ast.unparse(e)!r}")
+
+    def comprehension(self, e, env):
+        out = []
+
+        def rec(i, env2):
+            if i == len(e.generators):
+                out.append(self.ev(e.elt, env2))
+                return
+            g = e.generators[i]
+            it = self.ev(g.iter, env2)
+            if isinstance(it, (Sym, App)):
+                raise AnalysisError(f"dtable: comprehension over symbolic iterable {it!r}")
+            for x in it:
+                env3 = dict(env2)
+                self.assign(g.target, x, env3)
+                if all(self.truth(self.ev(c, env3)) for c in g.ifs):
+                    rec(i + 1, env3)
+
+        rec(0, dict(env))
+        return tuple(out)
 
     def cmp(self, op, a, b) -> bool:
         if isinstance(op, (ast.Is, ast.IsNot)):
@@ -235,6 +270,13 @@ class AbstractEval:
                 args.append(self.ev(a, env))
         kwargs = {k.arg or "**": self.ev(k.value, env) for k in e.keywords}
         fname = dotted(f) or ast.unparse(f)
+        if isinstance(f, ast.Name) and f.id in self.funcs:
+            return self.funcs[f.id](*args, **kwargs)
+        if isinstance(f, ast.Name) and self.cur:
+            q = self.cur[-1].module.resolve(f)
+            target = self.prog.functions.get(q)
+            if target is not None and target.cls is None and self.inline(target.qual) and self.depth < self.max_depth:
+                return self.call_func(target, args, kwargs)
         if isinstance(f, ast.Name) and f.id == "isinstance":
             obj, cls = args
             return self._atom(("isinstance", term(obj), term(cls)))
@@ -261,6 +303,7 @@ class AbstractEval:
 
     def call_func(self, f: FuncInfo, args: List[Any], kwargs: Dict[str, Any]):
         self.depth += 1
+        self.cur.append(f)
         try:
             env = {}
             params = f.params
@@ -281,6 +324,7 @@ class AbstractEval:
                 return r.value
             return None
         finally:
+            self.cur.pop()
             self.depth -= 1
 
     # -- statements --------------------------------------------------------------------
@@ -320,6 +364,29 @@ class AbstractEval:
                 self.assign(s.target, self.ev(s.value, env), env)
         elif isinstance(s, ast.Pass):
             return
+        elif isinstance(s, ast.Try):
+            try:
+                self.block(s.body, env)
+            except (_Return,):
+                raise
+            except BaseException as x:  # abstract raise or a modelled builtin's exception
+                if isinstance(x, (NeedAtom, AnalysisError)):
+                    raise
+                name = x.exc.split(".")[-1] if isinstance(x, _Raise) else type(x).__name__
+                name = {"TypeErr": "TypeError"}.get(name, name)
+                for h in s.handlers:
+                    types = h.type.elts if isinstance(h.type, ast.Tuple) else ([h.type] if h.type is not None else [])
+                    names = [(dotted(t) or "").split(".")[-1] for t in types]
+                    if not names or name in names or "Exception" in names or "BaseException" in names:
+                        if h.name:
+                            env[h.name] = Sym(h.name)
+                        self.block(h.body, env)
+                        break
+                else:
+                    raise
+            else:
+                self.block(s.orelse, env)
+            self.block(s.finalbody, env)
         else:
             raise AnalysisError(f"dtable: no abstract semantics for statement {type(s).__name__} at line {s.lineno}")
 
@@ -349,6 +416,9 @@ def explore(
     inline: Optional[Callable[[str], bool]] = None,
     preset: Optional[Dict[Tuple, Any]] = None,
     max_paths: int = 5000,
+    globals_: Optional[Dict[str, Any]] = None,
+    funcs: Optional[Dict[str, Callable]] = None,
+    type_of: Optional[Dict[str, str]] = None,
 ) -> List[Tuple[Dict[Tuple, Any], Tuple, List[App]]]:
     """Enumerate every consistent path of `fn`; returns [(valuation, outcome, calls)]."""
 
@@ -363,6 +433,10 @@ def explore(
         if consistent is not None and not consistent(val):
             continue
         ae = AbstractEval(prog, val, inline=inline, field_types=field_types, const_attrs=const_attrs)
+        ae.globals = dict(globals_ or {})
+        ae.funcs = dict(funcs or {})
+        for p_, t_ in (type_of or {}).items():
+            ae.type_of[p_] = t_
         if self_type and args and isinstance(args[0], Sym):
             ae.type_of[term(args[0])] = self_type
         for p, t in (field_types or {}).items():
